@@ -122,6 +122,7 @@ def run_case(case):
     seed, index, flags_off = case["seed"], case["index"], case.get("flags_off", [])
     prng = random.Random("%s:C19p:%s" % (seed, index))
     prof = C.base_profile(prng, flags_off)
+    prof["multi_tool"] = prng.random() < 0.6      # sessions of different tools / models: the per-tool breakdown has several entries
     sc = Hist("C19", seed, index, prof)
     try:
         rng = sc.rng
